@@ -255,6 +255,11 @@ def specials():
     for items in ([(comp, {"suit-text-vendor-name": "v"}), ("suit-text-manifest-description", "d")],
                   [("suit-text-update-description", "u"), (comp, {"suit-text-model-name": "m"}), ("suit-text-manifest-description", "d"), (json.dumps(["I"]), {"suit-text-vendor-domain": "x"})]):
         yield minimal(man={"suit-text": {"suit-digest-algorithm-id": "cose-alg-sha-256"}}, env={"suit-text": {"en": dict(items), "pl": dict(reversed(items))}})
+    # texts that a careless tokenizer of the JSON / YAML rendering trips over: a trailing backslash, comment markers, quotes, braces
+    tricky = {"en": {"suit-text-manifest-description": "C:\\build\\out\\", "suit-text-update-description": "see http://example.com/a /* not a comment */ // neither",
+                     "suit-text-manifest-json-source": "{\"k\": \"v\\\\\"} # x", "suit-text-manifest-yaml-source": "key: 'v' # c\n- [a, b]\n...\n---\n"},
+              "de": {"suit-text-manifest-description": "\\", "suit-text-update-description": "//", json.dumps(["M"]): {"suit-text-vendor-name": "a\\", "suit-text-model-name": "/* */", "suit-text-vendor-domain": "x//y"}}}
+    yield minimal(man={"suit-text": {"suit-digest-algorithm-id": "cose-alg-sha-256"}, "suit-reference-uri": "file:///c:/x\\"}, env={"suit-text": tricky})
     leaf = minimal(man={"suit-reference-uri": "leaf"})
     yield {"SUIT_Envelope_Tagged": {**minimal()["SUIT_Envelope_Tagged"], "suit-integrated-dependencies": {"#dep": leaf}, "suit-integrated-payloads": {"#after": "0102"}}}
     e = dict(minimal(env={"suit-integrated-payloads": {"#a": "01"}})["SUIT_Envelope_Tagged"])
